@@ -9,19 +9,66 @@ import (
 	"verif/harness/internal/vh"
 )
 
-// Cfg mirrors Spec.EncEvent.cfg.
+// Cfg mirrors Spec.EncEvent.cfg.  PadCols / PadNull / PadTM are the padding patterns (c_pad_cols, c_pad_null,
+// c_pad_tm): bit k of the byte is what the master leaves in an unused high bit k of the last byte of a
+// columns-present bitmap / a row's NULL bitmap / a table map's nullable-columns bitmap.
 type Cfg struct {
-	CRC, V2, Tid4 bool
-	HLen, NSizes  int
+	CRC, V2, Tid4           bool
+	HLen, NSizes            int
+	PadCols, PadNull, PadTM int
 }
 
+// Val: five elements when every pattern is 0 (the request format of before), eight otherwise.
 func (c Cfg) Val() vh.Val {
-	return vh.L(vh.B(c.CRC), vh.B(c.V2), vh.B(c.Tid4), vh.I(int64(c.HLen)), vh.I(int64(c.NSizes)))
+	vs := []vh.Val{vh.B(c.CRC), vh.B(c.V2), vh.B(c.Tid4), vh.I(int64(c.HLen)), vh.I(int64(c.NSizes))}
+	if c.PadCols != 0 || c.PadNull != 0 || c.PadTM != 0 {
+		vs = append(vs, vh.I(int64(c.PadCols)), vh.I(int64(c.PadNull)), vh.I(int64(c.PadTM)))
+	}
+	return vh.L(vs...)
 }
 
 func (c Cfg) String() string {
-	return fmt.Sprintf("crc%v/v2%v/tid4%v/h%d/n%d", c.CRC, c.V2, c.Tid4, c.HLen, c.NSizes)
+	return fmt.Sprintf("crc%v/v2%v/tid4%v/h%d/n%d/pad%02x.%02x.%02x", c.CRC, c.V2, c.Tid4, c.HLen, c.NSizes, c.PadCols, c.PadNull, c.PadTM)
 }
+
+func padClass(p int) string {
+	switch p {
+	case 0:
+		return "00"
+	case 255:
+		return "ff"
+	}
+	return "xx"
+}
+
+// PadKey classifies the padding patterns (presence.null.tablemap, each 00 | ff | xx).  It is not part of Key():
+// the classes of the properties would multiply by 27; the runners count it in the distribution instead.
+func (c Cfg) PadKey() string {
+	return "pad:" + padClass(c.PadCols) + "." + padClass(c.PadNull) + "." + padClass(c.PadTM)
+}
+
+// withPads draws the padding patterns: all 0 (1/8), all ones (2/8), what a MySQL master leaves (2/8: ones in
+// the rows' NULL bitmaps, zeros in the table map, zeros or ones in the presence bitmaps), three random
+// bytes (3/8).  The draw uses a side stream of r: the other choices of the run are the same as without it.
+func (c Cfg) withPads(r *vh.Rng) Cfg {
+	q := r.Side()
+	switch q.Intn(8) {
+	case 0:
+		c.PadCols, c.PadNull, c.PadTM = 0, 0, 0
+	case 1, 2:
+		c.PadCols, c.PadNull, c.PadTM = 255, 255, 255
+	case 3:
+		c.PadCols, c.PadNull, c.PadTM = 0, 255, 0
+	case 4:
+		c.PadCols, c.PadNull, c.PadTM = 255, 255, 0
+	default:
+		c.PadCols, c.PadNull, c.PadTM = q.Intn(256), q.Intn(256), q.Intn(256)
+	}
+	return c
+}
+
+// baseCfg is baseCfgs[i mod len] with padding patterns drawn.
+func baseCfg(r *vh.Rng, i int) Cfg { return baseCfgs[i%len(baseCfgs)].withPads(r) }
 
 func (c Cfg) Key() string {
 	k := "crc0"
@@ -42,9 +89,9 @@ func (c Cfg) Key() string {
 }
 
 var baseCfgs = []Cfg{
-	{false, true, false, 19, 40}, {true, true, false, 19, 40},
-	{false, false, false, 19, 38}, {true, false, false, 19, 38},
-	{false, false, true, 19, 36}, {true, false, true, 19, 36},
+	{CRC: false, V2: true, Tid4: false, HLen: 19, NSizes: 40}, {CRC: true, V2: true, Tid4: false, HLen: 19, NSizes: 40},
+	{CRC: false, V2: false, Tid4: false, HLen: 19, NSizes: 38}, {CRC: true, V2: false, Tid4: false, HLen: 19, NSizes: 38},
+	{CRC: false, V2: false, Tid4: true, HLen: 19, NSizes: 36}, {CRC: true, V2: false, Tid4: true, HLen: 19, NSizes: 36},
 }
 
 func randCfg(r *vh.Rng) Cfg {
@@ -55,7 +102,7 @@ func randCfg(r *vh.Rng) Cfg {
 	if r.Chance(1, 4) {
 		c.NSizes = 35 + r.Intn(200)
 	}
-	return c
+	return c.withPads(r)
 }
 
 type Hdr struct {
